@@ -84,7 +84,7 @@ theorem parse_fields {b : Bytes} (h : WF b) {p : Parsed} (hp : parse b (factsOf 
   have e2 : (factsOf b).ddSize = certSize b := rfl
   have e4 : (layout b).soh + ((layout b).hashed.map (·.2)).sum = (layout b).sum := rfl
   rw [e1, e2, e4] at hp
-  rw [if_neg (by omega), if_neg (by omega)] at hp
+  rw [if_neg (by omega), if_neg (by omega), if_neg (by omega)] at hp
   have e5 : (layout b).sum + (b.length - (layout b).sum) = b.length := by omega
   have e6 : (layout b).sum + (b.length - (layout b).sum - certSize b) = b.length - certSize b := by omega
   rw [e5, e6] at hp
@@ -1144,11 +1144,11 @@ theorem contentOf_of_parseP7 {ok : Bytes → Bool} {blob : Bytes} {p : P7}
     simp [h1, hA, h3', h4, k1, k2, hr, hc]
 
 /-- what the implementation accepts, the specification accepts — for a digest function that never
-    returns the empty string, on an image whose table walks strictly, provided every entry has
-    certificate type PKCS#7 (which `Verify` does not look at) -/
+    returns the empty string, on an image whose table walks strictly (the specification, like
+    `Verify`, does not constrain wCertificateType) -/
 theorem authenticodeVerify_of_verify {C : Crypto} {ok : Bytes → Bool} {b : Bytes} (h : WF b)
     {p : Parsed} (hp : parse b (factsOf b) = .ok p) {c : Cert} {es : List CertEntry}
-    (he : certEntries b = some es) (hct : ∀ e ∈ es, e.ctype = 2) (hsha : ∀ x, C.sha256 x ≠ [])
+    (he : certEntries b = some es) (hsha : ∀ x, C.sha256 x ≠ [])
     (hv : p.verify C ok c = .ok true) : Spec.authenticodeVerify C b c = true := by
   obtain ⟨ws, w, a, hs, hw, ha, g1, _, g3, g4, _⟩ := verify_chain hv
   obtain ⟨hp7, hoid, _⟩ := parseAuthenticode_inv ha
@@ -1164,10 +1164,9 @@ theorem authenticodeVerify_of_verify {C : Crypto} {ok : Bytes → Bool} {b : Byt
   rw [he]
   refine List.any_eq_true.mpr ⟨_, hmem, ?_⟩
   unfold Spec.entryAccepts
-  have hc2 : w.ctype = 2 := hct _ hmem
   have e1 : (oidSpcIndirectData == Spec.oidSpcIndirectData) = true := by decide
   have e2 : (oidSha256 == Spec.oidSha256) = true := by decide
-  simp only [hrev, hc2, hcms, hco, hspc, hoid, g1, g3, hstream, e1, e2]
+  simp only [hrev, hcms, hco, hspc, hoid, g1, g3, hstream, e1, e2]
   simp
 
 end PeSign
